@@ -393,6 +393,20 @@ def oracle(ctx, hints, effort):
             r = check_one_fault(d)
             if r:
                 add(r[0], r[1], dict(d, kind="one-fault"), r[3], r[2])
+    for h in hints[:60]:
+        d = h.get("desc")
+        if h.get("slice") == "dort.prune.depth" and isinstance(d, dict) and "scene" in d:
+            for tau in sorted({float(d["tau"]), 6.0, 8.0}):
+                deep = json.loads(json.dumps(d["scene"]))
+                for mult in (1, 3, 10):
+                    evals += 1
+                    dd = dict(deep, thickness=[t * mult for t in deep["thickness"]])
+                    try:
+                        r = check_prune(dd, tau)
+                    except Exception:  # noqa
+                        r = None
+                    if r:
+                        add(r[0], "pruning changes Tb more than the bound", {"kind": "prune", "scene": dd, "tau": tau}, r[1], r[2])
     # LAPACK-level failures in every method (one scene in the routine tier)
     for sc, active, mmax in fault_cases(rng, 1 if effort == "routine" else 6):
         for method in ("eig", "shur", "shur_forcedtriu"):
